@@ -1029,6 +1029,9 @@ def h_or(e, st, fr, ins):
     if a.__class__ is int and b.__class__ is int:
         regs[ins[1]] = a | b; return
     w = ins[2]
+    m_ = (1 << w) - 1
+    if (a.__class__ is int and a == m_) or (b.__class__ is int and b == m_):
+        regs[ins[1]] = m_; return          # x | all-ones: defined whatever the other (possibly indeterminate) operand is
     A, B = _binprep(e, st, a, b, w, 'or')
     if A is DONE: regs[ins[1]] = B; return
     if w == 1:
@@ -1153,8 +1156,10 @@ def h_icmp(e, st, fr, ins):
 
 def icmp(e, st, pred, w, a, b):
     ca = a.__class__; cb = b.__class__
-    if ca is Undef: a = _mat(e, st, a, w or 64); ca = a.__class__
-    if cb is Undef: b = _mat(e, st, b, w or 64); cb = b.__class__
+    if ca is Undef or cb is Undef:
+        # comparison of an indeterminate value: the result is indeterminate too; it is reported only if control flow
+        # or an address ends up depending on it (compilers hoist such loads past the test that guards them)
+        return Undef(1, (ca is Undef and a.mem) or (cb is Undef and b.mem))
     if ca is PInt or cb is PInt:
         if pred in ('eq', 'ne') or (ca is PInt and cb is PInt):
             d = pint_lin(a if ca is not Ptr else PInt(a), b if cb is not Ptr else PInt(b), 1, -1)
